@@ -528,7 +528,7 @@ class RandMaxVar(MaxVar):
         self.name = 'rand_max_var'
         self.name_sampler = sampler
         self._n_samples = n_samples
-        self._warmup = warmup or n_samples // 2
+        self._warmup = n_samples // 2 if warmup is None else warmup
         self._limit_faulty_init = limit_faulty_init
         self._init_from_prior = init_from_prior
         if self.name_sampler == 'metropolis':
